@@ -120,6 +120,43 @@ structure Rel where
   parent : Parent
   deriving Repr, Inhabited
 
+/-- The rows that hang on ONE R_REL, as `mk_association` and the three `mk_*_association` functions read them — for
+    every relationship, also those that are none of the four shapes of `RelKind` (an unformalised simple relationship:
+    R_SIMP with two R_PART rows and no R_FORM; a linked one without its R_AONE / R_AOTH / R_ASSR row; a subtype
+    relationship without R_SUPER or without any R_SUB; an R_REL without any R206 subtype row, or with two).  An end row
+    (R_FORM, R_PART, R_AONE, ...) is taken together with its R_RGO / R_RTO / R_OIR supertype rows. -/
+structure RelRows where
+  /-- which R206 subtype rows carry the Rel_ID -/
+  simp : Bool := false
+  assoc : Bool := false
+  subsup : Bool := false
+  comp : Bool := false
+  /-- `one(r_simp).R_FORM[208]()` -/
+  form : Option End := none
+  /-- the R_PART rows across R207, in link order (= the order of the R_PART rows in the file) -/
+  parts : List End := []
+  /-- the O_REF rows `_get_related_attributes(r_rgo, r_rto)` selects for the simple relationship: those hanging on the
+      first participant's R_RTO whose OIR_ID is that of the referring end (R_FORM; without one: the second participant) -/
+  refs : List Ref := []
+  aone : Option End := none
+  aoth : Option End := none
+  /-- R_ASSR: the link class -/
+  assr : Option Nat := none
+  refsOne : List Ref := []
+  refsOth : List Ref := []
+  /-- R_SUPER: the supertype class -/
+  super : Option Nat := none
+  subs : List (Nat × List Ref) := []
+  deriving Repr, Inhabited
+
+/-- an R_REL given by its rows -/
+structure RowRel where
+  id : Nat
+  numb : Nat
+  rows : RelRows
+  parent : Parent
+  deriving Repr, Inhabited
+
 structure ClassDiagram where
   containers : List Container
   dts : List DataType
@@ -130,6 +167,9 @@ structure ClassDiagram where
       which attribute is "first" is then a matter of row order: outside C14's domain); `gen_xsd_schema.build_class`
       iterates R102 and declares them like any other attribute.  They are never referred to (R113, O_OIDA, O_REF). -/
   loose : List (Nat × Attr) := []
+  /-- relationships given row by row (`RelRows`): everything `rels` cannot express.  `extract` / `buildOutcome` do not
+      look at them; `buildAll` (Rows.lean) is `mk_component` over `rels` and `rowRels` together. -/
+  rowRels : List RowRel := []
   deriving Repr, Inhabited
 
 def looseOf (d : ClassDiagram) (cls : Nat) : List Attr := (d.loose.filter (fun p => p.1 == cls)).map (·.2)
